@@ -101,6 +101,22 @@ func NewValue(typ *meta.Type, v interface{}) (val.Value, error) {
 			}
 			return val.Conv(target.Format().List(), v)
 		}
+		if !typ.Format().IsList() && target.Format().IsList() {
+			// a leaf that refers to a leaf-list holds one value of the element type
+			switch target.Format().Single() {
+			case val.FmtEnum:
+				return toEnum(target.Enum(), v)
+			case val.FmtIdentityRef:
+				return toIdentRef(target.Base(), v)
+			case val.FmtBits:
+				return toBits(target.Bits(), v)
+			case val.FmtUnion:
+				return toUnionMember(target, v)
+			case val.FmtLeafRef:
+				return nil, fmt.Errorf("leafref to a leafref is not supported")
+			}
+			return val.Conv(target.Format().Single(), v)
+		}
 		return NewValue(target, v)
 	case val.FmtBitsList:
 		return toBitsList(typ.Bits(), v)
